@@ -7,4 +7,5 @@ INVARIANT Cl_RoundTripCurve
 INVARIANT Cl_ReloadIsMassFraction
 INVARIANT Cl_RoundTripFunction
 INVARIANT Cl_RoundTripConditions
+INVARIANT Step_CollisionRaises
 CHECK_DEADLOCK FALSE
